@@ -16,7 +16,7 @@ Few(seq) == Cardinality({seq[i] : i \in 1..Len(seq)}) <= 3
 VaultReplies == {r \in SeqsOver(PadKinds, MaxReplies) : Few(r)}
 ChunkReplies == SeqsOver(ChunkKinds, 3)
 Positions == {"root", "top", "bottom"}
-SubstKinds == {"authentic", "wrongcontent", "wrongkey", "wrongkind", "missing", "paidsubst"}
+SubstKinds == {"authentic", "wrongcontent", "wrongkey", "wrongkind", "missing", "paidsubst", "sibling", "siblingkey"}
 
 VARIABLES op, replies, outcome, res, pos
 vars == <<op, replies, outcome, res, pos>>
@@ -43,14 +43,20 @@ Falsified ==
            (IF C15_ChunkAuthentic([req |-> 1, res |-> res]) THEN {} ELSE {"C15_ChunkAuthentic"})
       \cup (IF C15_FailClosed(replies[1] = "authentic", res) THEN {} ELSE {"C15_FailClosed"})
     ELSE   (IF C15_VaultAuthentic([delivered |-> Delivered(outcome), res |-> res]) THEN {} ELSE {"C15_VaultAuthentic"})
+      \cup (IF C15_VaultFieldsAuthentic([res |-> res]) THEN {} ELSE {"C15_VaultFieldsAuthentic"})
       \cup (IF C15_FailClosed(\E k \in Delivered(outcome) : AuthenticPad(k), res) THEN {} ELSE {"C15_FailClosed"})
 NoClauseFalsified == Falsified = {}
 
 \* ---- cases for the driver
+\* a split is delivered as a map: the driver makes the map iterate in the order of `vs`, and EVERY order is a case
 OutJ(o) == [k |-> o.k, v |-> o.v, vs |-> SetToSeq(o.vs)]
+OutJs(o) == IF o.k = "Split" THEN {[k |-> o.k, v |-> o.v, vs |-> p] : p \in SetToSeqs(o.vs)} ELSE {OutJ(o)}
 Cases == {[op |-> "ChunkGet", outcome |-> OutJ(o)] : o \in {Accumulate(r, 1) : r \in ChunkReplies} \cup {TimeoutOut}}
-    \cup {[op |-> "VaultGet", outcome |-> OutJ(o)] : o \in {Accumulate(r, 3) : r \in VaultReplies} \cup {TimeoutOut}}
-    \cup {[op |-> "DataGet", levels |-> L, lvl |-> p, idx |-> i, kind |-> k] :
+    \cup UNION {{[op |-> "VaultGet", outcome |-> j] : j \in OutJs(o)} : o \in {Accumulate(r, 3) : r \in VaultReplies} \cup {TimeoutOut}}
+    \cup {[op |-> "DataGet", api |-> "public", levels |-> L, lvl |-> p, idx |-> i, kind |-> k] :
              L \in 1..3, p \in Positions, i \in {"first", "mid", "last"}, k \in SubstKinds}
+    \* the private read (data map in hand, no root fetch): one chunk of the top / bottom level substituted
+    \cup {[op |-> "DataGet", api |-> "private", levels |-> L, lvl |-> p, idx |-> "mid", kind |-> k] :
+             L \in 1..3, p \in Positions \ {"root"}, k \in SubstKinds}
 ASSUME IF "CASES" \in DOMAIN IOEnv THEN ndJsonSerialize(IOEnv.CASES, SetToSeq(Cases)) ELSE TRUE
 =============================================================================
